@@ -72,7 +72,7 @@ def run(tier, seed):
             ("tut1x1", None, 150), ("tut13x4", None, 150)]
     if not quick:
         # generated suites (random setup DAGs, vf/parse/gensuite.py)
-        plan += [("gen:%d:%d" % (seed + 301 + i, 2 + i % 2), None, 120) for i in range(6)]
+        plan += [("gen:%d:%d" % (seed + 301 + i, 2 + i % 2), None, 150) for i in range(3)]
     return D.generic_run(PID, tier, seed, plan, make_jobs, signature, describe, explore_plan=D.explore_plan(tier, ['Completed'], lost=True), settings_of=settings_of, post=post,
                          rule="randomized timing/outcomes incl. never-reported results and persistent failure / persistent loss of one test or creation step, max_tries {1,2,3}, restricted workers, dry runs, initial pools; "
                               "step watchdog of 6000 events; TLC validates completion, definite results, executed-at-least-once, dry-run inertness")
